@@ -1372,6 +1372,11 @@ class ProgGen(object):
         self.gscope.vars[x] = (t, not (isinstance(t, list) and t[0] == "arr"))
         if "store" in self.emph and isinstance(t, list) and t[0] == "un" and "fun" in self.feat:
             self._pending_probe = (x, t)
+        if "const" in self.feat and isinstance(t, str) and self.r.random() < 0.3:
+            # (opt-in feature) a constant `x: T == v`: read like a variable, never assigned
+            self.gscope.vars[x] = (t, False)
+            self.items.append(("t", {"d": "var", "x": x, "t": t, "init": init, "const": True}))
+            return
         self.items.append(("t", {"d": "var", "x": x, "t": t, "init": init}))
         pp = getattr(self, "_pending_probe", None)
         if pp:
@@ -1435,7 +1440,7 @@ def generate(seed, n, features=None, emph=(), extras=True):
     for i in range(n):
         g = ProgGen(seed * 100003 + i, features=features, emph=emph)
         if extras and features is None and i % 3 == 2:
-            g.feat |= {"tup", "coll", "filt", "adt", "kwd", "strop", "where", "pfor", "bits"}
+            g.feat |= {"tup", "coll", "filt", "adt", "kwd", "strop", "where", "pfor", "bits", "const"}
             if "try" in g.feat and i % 2:
                 g.enable_payload()
         out.append(g.program("g%d_%d" % (seed, i)))
